@@ -377,8 +377,33 @@ func ruleFor(c *Ctx) *RuleResult {
 				continue
 			}
 			nStores++
-			// the new value: an addition the stored value derives from
+			// the new value: an addition that some store to the hidden counter in this
+			// branch derives from (the store of nil has no addition of its own, but the
+			// tests on the way to it are about the same new value)
 			var newVals []ssa.Value
+			var storedVals []ssa.Value
+			for b2 := range advR {
+				for _, i2 := range b2.Instrs {
+					if c2, ok := i2.(*ssa.Call); ok && calleeNamed(c2, "setReg") && len(c2.Call.Args) >= 4 && c2.Call.Args[2] == startReg {
+						storedVals = append(storedVals, c2.Call.Args[3])
+					}
+				}
+			}
+			for _, sv := range storedVals {
+				for w := range backSliceAllocs(sv, true) {
+					if cl, ok := w.(*ssa.Call); ok && calleeNamed(cl, "Add") {
+						newVals = append(newVals, cl)
+						for _, ref := range *cl.Referrers() {
+							if ex, ok := ref.(*ssa.Extract); ok {
+								newVals = append(newVals, ex)
+							}
+						}
+					}
+					if bo, ok := w.(*ssa.BinOp); ok && bo.Op == token.ADD {
+						newVals = append(newVals, bo)
+					}
+				}
+			}
 			for w := range backSliceAllocs(call.Call.Args[3], false) {
 				if cl, ok := w.(*ssa.Call); ok && calleeNamed(cl, "Add") {
 					newVals = append(newVals, cl)
@@ -394,8 +419,27 @@ func ruleFor(c *Ctx) *RuleResult {
 			}
 			// comparisons in the code leading to this store
 			limitCmp, overflowCmp := 0, 0
+			reachesWithin := func(from, to *ssa.BasicBlock) bool {
+				// a path that stays inside the advance branch (the enclosing interpreter
+				// loop would otherwise connect every block to every other)
+				seen := map[*ssa.BasicBlock]bool{}
+				stack := []*ssa.BasicBlock{from}
+				for len(stack) > 0 {
+					x := stack[len(stack)-1]
+					stack = stack[:len(stack)-1]
+					if seen[x] || !advR[x] {
+						continue
+					}
+					seen[x] = true
+					if x == to {
+						return true
+					}
+					stack = append(stack, x.Succs...)
+				}
+				return false
+			}
 			for rb := range advR {
-				if !blockReaches(rb, b) {
+				if !reachesWithin(rb, b) {
 					continue
 				}
 				for _, ri := range rb.Instrs {
@@ -545,6 +589,31 @@ func ruleFor(c *Ctx) *RuleResult {
 				if cl, ok := x.Tuple.(*ssa.Call); ok && x.Index == 0 && (calleeNamed(cl, "isLessThan") || calleeNamed(cl, "Lt") || calleeNamed(cl, "le") || nanFalse(cl.Call.StaticCallee(), 0)) {
 					return no
 				}
+				// "is this operand an integer?" — a (integer, bool) conversion applied to an
+				// operand that the scenario makes a float: the counter and the step when the
+				// new value is NaN (they have one numeric type, and integers never add up to
+				// NaN), the limit when the limit is NaN
+				if x.Index == 1 {
+					var operand ssa.Value
+					switch t := x.Tuple.(type) {
+					case *ssa.Call:
+						if sig := t.Call.Signature(); sig != nil && sig.Results().Len() == 2 && len(t.Call.Args) >= 1 {
+							if b, ok := sig.Results().At(0).Type().Underlying().(*types.Basic); ok && b.Info()&types.IsInteger != 0 {
+								operand = t.Call.Args[0]
+							}
+						}
+					case *ssa.TypeAssert:
+						if b, ok := t.AssertedType.Underlying().(*types.Basic); ok && b.Info()&types.IsInteger != 0 {
+							operand = t.X
+						}
+					}
+					if operand != nil {
+						src := regSourceOf(operand)
+						if (scenario == "limit" && src == "GetB") || (scenario == "new-value" && (src == "GetA" || src == "GetC")) {
+							return no
+						}
+					}
+				}
 			case *ssa.Call:
 				if calleeNamed(x, "numIsLessThan") || nanFalse(x.Call.StaticCallee(), 0) {
 					return no
@@ -647,15 +716,28 @@ func ruleFor(c *Ctx) *RuleResult {
 // regSourceOf: which opcode field (GetA/GetB/GetC) the register read that v
 // derives from used: v <- ... <- getReg(regs, cells, <GetX()>).
 func regSourceOf(v ssa.Value) string {
-	for w := range backSliceAllocs(v, false) {
-		if call, ok := w.(*ssa.Call); ok && calleeNamed(call, "getReg") && len(call.Call.Args) >= 3 {
-			if src, ok := call.Call.Args[2].(*ssa.Call); ok {
-				for _, n := range []string{"GetA", "GetB", "GetC"} {
-					if calleeNamed(src, n) {
-						return n
+	// first without looking through calls; then through them (a conversion such as
+	// x.TryInt() keeps the register its operand was read from)
+	for _, through := range []bool{false, true} {
+		found := map[string]bool{}
+		for w := range backSliceAllocs(v, through) {
+			if call, ok := w.(*ssa.Call); ok && calleeNamed(call, "getReg") && len(call.Call.Args) >= 3 {
+				if src, ok := call.Call.Args[2].(*ssa.Call); ok {
+					for _, n := range []string{"GetA", "GetB", "GetC"} {
+						if calleeNamed(src, n) {
+							found[n] = true
+						}
 					}
 				}
 			}
+		}
+		if len(found) == 1 {
+			for n := range found {
+				return n
+			}
+		}
+		if len(found) > 1 {
+			return "" // derives from several registers: not a plain operand
 		}
 	}
 	return ""
